@@ -68,6 +68,7 @@ type epochMark struct {
 
 type deferred struct {
 	guard string // non-empty: registered only on the paths where this condition holds (after a merge of states)
+	recv  Value  // defer x.m(...): the receiver is evaluated when the defer statement runs, not when the call does
 	call *ast.CallExpr
 	fn   Value
 	args []Value
@@ -179,6 +180,7 @@ type Ctx struct {
 	loopWrites  map[int]map[string]bool // heap keys written by each loop (dry run), by loop ordinal
 	watchKeys   map[string]bool         // heap keys whose reads are being watched (postconditions over keys a callee hides)
 	watchHit    bool
+	deferRecv   Value // receiver of the deferred method call being run (evaluated at the defer statement)
 	spawned     map[string]bool // callee names started with `go` in this function (for spawnonly clauses)
 	lastNfRefs  map[string][]string     // per base key: pre-existing objects the last discovered loop writes, if all are loop-invariant terms
 	lastNfVague map[string]bool         // keys / prefixes for which the objects written are not all known loop-invariant terms
